@@ -518,15 +518,62 @@ def install():
         r = active()
         if r is None or caller_name() != "_netref_factory":
             return orig_factory(id_pack, methods)
-        r.touch("mkclass", id_pack, "", (methods,))
+        st = r.factory_state = dict(raised=None)
         try:
             res = orig_factory(id_pack, methods)
         except BaseException as ex:
-            r.failed(ex)
+            if st["raised"] is not ex:
+                r.touch("mkclass", id_pack, "", (methods,))
+                r.failed(ex)
+            r.factory_state = None
             raise
+        r.factory_state = None
+        r.touch("mkclass", id_pack, "", (methods,))
         r.done(None)
         return res
     netref.class_factory = n_class_factory
+
+    class NetrefModules:
+        """`sys.modules` as `netref.class_factory` sees it: `.get(prefix)` is a logged lookup"""
+        def get(self, k, *d):
+            r = active()
+            res = sys.modules.get(k, *d)
+            if r is not None and caller_name() == "class_factory":
+                r.touch("modlookup", k)
+                r.done(res)
+            return res
+
+        def __getattr__(self, n):
+            return real_getattr(sys.modules, n)
+
+        def __getitem__(self, k):
+            return sys.modules[k]
+
+        def __contains__(self, k):
+            return k in sys.modules
+
+    class NetrefSys:
+        modules = NetrefModules()
+
+        def __getattr__(self, n):
+            return real_getattr(sys, n)
+    netref.sys = NetrefSys()
+
+    def n_getattr(obj, name, *default):
+        r = active()
+        if r is None or caller_name() != "class_factory":
+            return real_getattr(obj, name, *default)
+        r.touch("modgetattr", obj, "", (name,))
+        try:
+            res = real_getattr(obj, name, *default)
+        except BaseException as ex:
+            r.failed(ex)
+            if r.factory_state is not None:
+                r.factory_state["raised"] = ex
+            raise
+        r.done(None)
+        return res
+    netref.getattr = n_getattr
 
     # ---- vinegar.load: the import gate and the class gate
     orig_import = builtins.__import__
@@ -986,3 +1033,4 @@ Recorder.ctx_resolve = _ctx_resolve
 Recorder.splat_failed = _splat_failed
 Recorder.note_remote_names = _note_remote_names
 Recorder.load_state = None
+Recorder.factory_state = None
